@@ -19,13 +19,15 @@ import (
 )
 
 var (
-	fset  = token.NewFileSet()
-	files = map[string]*ast.File{}
-	fatal []string
+	fset     = token.NewFileSet()
+	files    = map[string]*ast.File{}
+	fatal    = map[string][]string{} // owner -> missing patterns
+	curOwner = "shared"
 )
 
+// fail records that a source pattern the current section's owner depends on is gone.
 func fail(format string, a ...interface{}) {
-	fatal = append(fatal, fmt.Sprintf(format, a...))
+	fatal[curOwner] = append(fatal[curOwner], fmt.Sprintf(format, a...))
 }
 
 func load(repo string) {
@@ -36,7 +38,7 @@ func load(repo string) {
 	}
 	sort.Strings(m)
 	for _, p := range m {
-		if strings.HasSuffix(p, "_test.go") || strings.HasSuffix(p, "verif_hooks.go") {
+		if strings.HasSuffix(p, "_test.go") || strings.HasPrefix(filepath.Base(p), "verif_hooks") {
 			continue
 		}
 		f, err := parser.ParseFile(fset, p, nil, parser.ParseComments)
@@ -201,7 +203,30 @@ func unq(s string) string {
 
 type section func(w *bytes.Buffer)
 
-var sections []section
+// sections are grouped by owner: "shared" goes to Generated/Facts.lean
+// (namespace XlModel.Facts); owner "Cxx" goes to Generated/FactsCxx.lean
+// (namespace XlModel.Facts.Cxx). A missing pattern only affects its owner.
+var (
+	sections      []section // legacy: shared
+	ownerSections = map[string][]section{}
+)
+
+// addSection registers a fact section owned by one property (or "shared").
+func addSection(owner string, s section) {
+	ownerSections[owner] = append(ownerSections[owner], s)
+}
+
+func writeIfChanged(path string, data []byte) bool {
+	old, err := os.ReadFile(path)
+	if err == nil && bytes.Equal(old, data) {
+		return false
+	}
+	if err := os.WriteFile(path, data, 0o644); err != nil {
+		fmt.Fprintln(os.Stderr, "extract:", err)
+		os.Exit(3)
+	}
+	return true
+}
 
 func main() {
 	repo := "/repo"
@@ -213,34 +238,64 @@ func main() {
 		out = os.Args[2]
 	}
 	load(repo)
-	var w bytes.Buffer
-	w.WriteString("-- GENERATED by /verif/harness/cmd/extract from /repo's working tree. Do not edit.\n")
-	w.WriteString("namespace XlModel.Facts\n\n")
-	for _, s := range sections {
-		s(&w)
+	dir := filepath.Dir(out)
+	ownerSections["shared"] = append(sections, ownerSections["shared"]...)
+	owners := make([]string, 0, len(ownerSections))
+	for o := range ownerSections {
+		owners = append(owners, o)
 	}
-	w.WriteString("\nend XlModel.Facts\n")
-	if len(fatal) > 0 {
-		for _, m := range fatal {
-			fmt.Fprintln(os.Stderr, "extract: MISSING:", m)
+	sort.Strings(owners)
+	changed := []string{}
+	for _, o := range owners {
+		curOwner = o
+		var w bytes.Buffer
+		w.WriteString("-- GENERATED by /verif/harness/cmd/extract from the repository's working tree. Do not edit.\n")
+		ns, path := "XlModel.Facts", out
+		if o != "shared" {
+			ns, path = "XlModel.Facts."+o, filepath.Join(dir, "Facts"+o+".lean")
 		}
-		// still write what we have, plus a marker that makes dependants fail to build
-		w.WriteString("\n-- extraction incomplete:\n")
-		for _, m := range fatal {
-			w.WriteString("-- " + m + "\n")
+		w.WriteString("namespace " + ns + "\n\n")
+		for _, s := range ownerSections[o] {
+			s(&w)
+		}
+		w.WriteString("\nend " + ns + "\n")
+		if len(fatal[o]) > 0 {
+			w.WriteString("\n-- extraction incomplete:\n")
+			for _, m := range fatal[o] {
+				fmt.Fprintln(os.Stderr, "extract: MISSING ("+o+"):", m)
+				w.WriteString("-- " + m + "\n")
+			}
+		}
+		if writeIfChanged(path, w.Bytes()) {
+			changed = append(changed, filepath.Base(path))
 		}
 	}
-	old, _ := os.ReadFile(out)
-	if !bytes.Equal(old, w.Bytes()) {
-		if err := os.WriteFile(out, w.Bytes(), 0o644); err != nil {
-			fmt.Fprintln(os.Stderr, "extract:", err)
-			os.Exit(3)
+	// status file: owner -> missing patterns (only owners with failures)
+	var st bytes.Buffer
+	st.WriteString("{")
+	first := true
+	for _, o := range owners {
+		if len(fatal[o]) == 0 {
+			continue
 		}
-		fmt.Println("extract: Facts.lean updated")
+		if !first {
+			st.WriteString(",")
+		}
+		first = false
+		st.WriteString(strconv.Quote(o) + ":[")
+		for i, m := range fatal[o] {
+			if i > 0 {
+				st.WriteString(",")
+			}
+			st.WriteString(strconv.Quote(m))
+		}
+		st.WriteString("]")
+	}
+	st.WriteString("}\n")
+	writeIfChanged(filepath.Join(dir, "facts_status.json"), st.Bytes())
+	if len(changed) > 0 {
+		fmt.Println("extract: updated", strings.Join(changed, " "))
 	} else {
-		fmt.Println("extract: Facts.lean unchanged")
-	}
-	if len(fatal) > 0 {
-		os.Exit(4)
+		fmt.Println("extract: facts unchanged")
 	}
 }
